@@ -198,9 +198,16 @@ def ref_to_fa(sh, fa, rng, case, recs, partition=None, codec=None):
     cuts = sorted(rng.sample(range(1, n_entries), nch - 1)) if nch > 1 else []
     chunks = [(b - a, rng.random() < 0.5) for a, b in zip([0] + cuts, cuts + [n_entries])]
     sync = bytes(rng.getrandbits(8) for _ in range(16))
+    # the encoder settings another writer may have used
+    level = rng.choice({"deflate": [None, 0, 1, 9], "bzip2": [None, 1, 9],
+                        "xz": [None, 0, 8, "bigdict", "none", "crc32", "sha256"]}.get(codec, [None]))
     data, bounds = RK.write(js, enc, partition, codec=codec, sync=sync, meta=extra,
-                            header_chunks=chunks, codec_key=codec_key)
-    cfg = {"codec": codec, "codec_key": codec_key, "partition": partition, "chunks": chunks}
+                            header_chunks=chunks, codec_key=codec_key, level=level)
+    if level is not None:
+        sh.count("foreign_encoder_settings")
+    if level == "bigdict":
+        sh.count("xz_64MiB_dictionary")
+    cfg = {"codec": codec, "codec_key": codec_key, "partition": partition, "chunks": chunks, "level": level}
     info = {"dir": "ref->fa", "schema": js, "records": recs, "cfg": cfg, "file": data.hex() if len(data) < 400 else None}
     sh.case(h64("b", schema_shape(js), tuple(min(p, 3) for p in partition[:6]), tuple(chunks), codec, codec_key), True)
     if 0 in partition:
